@@ -172,8 +172,12 @@ pub type FileExtensions = Option<BTreeSet<String>>;
 
 pub fn matches_extensions(file: &std::path::Path, extensions: &FileExtensions) -> bool {
     extensions.as_ref().is_none_or(|extensions| {
-        let file_name = file.file_name().unwrap().to_string_lossy();
-        extensions.iter().any(|ext| file_name.ends_with(ext))
+        // A path without a final component (e.g. a watched directory declared as `src/..`,
+        // reported as such by the file watcher) names no file with an extension.
+        file.file_name().is_some_and(|file_name| {
+            let file_name = file_name.to_string_lossy();
+            extensions.iter().any(|ext| file_name.ends_with(ext))
+        })
     })
 }
 
